@@ -243,4 +243,62 @@ Lemma BI_Quo_pres : forall i i2, pres n S (BI_Quo i i2) Wn.
 Proof. intros; unfold BI_Quo; pres_auto. Qed.
 Lemma BI_Mod_pres : forall i i2, pres n S (BI_Mod i i2) Wn.
 Proof. intros; unfold BI_Mod; pres_auto. Qed.
+Lemma BI_Neg_pres : forall i, pres n S (BI_Neg i) Wn.
+Proof. intros; unfold BI_Neg; pres_auto. Qed.
+Lemma BI_Abs_pres : forall i, pres n S (BI_Abs i) Wn.
+Proof. intros; unfold BI_Abs; pres_auto. Qed.
+Lemma BI_Raw_pres : forall op, (forall i i2, pres n S (op i i2) Wn) -> forall i v, pres n S (BI_Raw op i v) Wn.
+Proof. intros op H i v. unfold BI_Raw. eapply pres_bind; [apply pres_bnew|]. intros t Ht. apply H. Qed.
+Lemma BI_Min_pres : forall i i2, pres n S (BI_Min i i2) Wn.
+Proof. intros; unfold BI_Min; pres_auto. Qed.
+Lemma BI_Max_pres : forall i i2, pres n S (BI_Max i i2) Wn.
+Proof. intros; unfold BI_Max; pres_auto. Qed.
+Lemma BI_ToDec_pres : forall i, pres n S (BI_ToDec i) Wn.
+Proof. intros; unfold BI_ToDec; pres_auto. Qed.
+Lemma BI_Int64_pres : forall i, pres n S (BI_Int64 i) Wn.
+Proof. intros; unfold BI_Int64; pres_auto. Qed.
+Lemma BI_Uint64_pres : forall i, pres n S (BI_Uint64 i) Wn.
+Proof. intros; unfold BI_Uint64; pres_auto. Qed.
+Lemma TruncateInt64_pres : forall d, pres n S (TruncateInt64 d) Wn.
+Proof. intros; unfold TruncateInt64; pres_auto. Qed.
+Lemma RoundInt64_pres : forall d, pres n S (RoundInt64 d) Wn.
+Proof. intros; unfold RoundInt64; pres_auto. Qed.
+Lemma IsInteger_pres : forall d, pres n S (IsInteger d) Wn.
+Proof. intros; unfold IsInteger; pres_auto. Qed.
+Lemma D_IsInteger_pres : forall d, pres n S (D_IsInteger d) Wn.
+Proof. intros; unfold D_IsInteger; pres_auto. Qed.
+Lemma D_RoundInt64_pres : forall d, pres n S (D_RoundInt64 d) Wn.
+Proof. intros; unfold D_RoundInt64; pres_auto. Qed.
+Lemma D_TruncateInt64_pres : forall d, pres n S (D_TruncateInt64 d) Wn.
+Proof. intros; unfold D_TruncateInt64; pres_auto. Qed.
+Lemma D_MulInt64Mut_pres : forall d i, Wn d -> pres n S (D_MulInt64Mut d i) Wn.
+Proof. intros; unfold D_MulInt64Mut; pres_auto. Qed.
+Lemma D_QuoInt64Mut_pres : forall d i, Wn d -> pres n S (D_QuoInt64Mut d i) Wn.
+Proof. intros; unfold D_QuoInt64Mut; pres_auto. Qed.
+Lemma ImmutOpZ_pres : forall op, (forall d i, Wn d -> pres n S (op d i) Wn) -> forall d i, pres n S (ImmutOpZ op d i) Wn.
+Proof. intros op H d i. unfold ImmutOpZ. eapply pres_bind; [apply Clone_pres|]. intros c Hc. apply H; assumption. Qed.
+Lemma D_PowerMut_pres : forall d k, Wn d -> pres n S (D_PowerMut d k) Wn.
+Proof.
+  intros d k Hd. unfold D_PowerMut.
+  destruct (k =? 0); [pres_auto|].
+  eapply pres_bind; [apply pres_bnew|]. intros tmp Ht.
+  eapply pres_bind; [apply power_loop_pres; auto using D_MulMut_pres with pres|].
+  intros d' Hd'. apply D_MulMut_pres; assumption.
+Qed.
+Lemma D_Power_pres : forall d k, pres n S (D_Power d k) Wn.
+Proof. intros; unfold D_Power. eapply pres_bind; [apply D_copy_pres|]. intros c Hc. apply D_PowerMut_pres; assumption. Qed.
+Lemma MinBigDec_pres : forall d d2, pres n S (MinBigDec d d2) (fun _ => True).
+Proof. intros; unfold MinBigDec; pres_auto. Qed.
+Lemma MaxBigDec_pres : forall d d2, pres n S (MaxBigDec d d2) (fun _ => True).
+Proof. intros; unfold MaxBigDec; pres_auto. Qed.
+Lemma NewBigDecWithPrec_pres : forall i k, pres n S (NewBigDecWithPrec i k) Wn.
+Proof. intros; unfold NewBigDecWithPrec; pres_auto. Qed.
+Lemma NewBigIntWithDecimal_pres : forall i k, pres n S (NewBigIntWithDecimal i k) Wn.
+Proof. intros; unfold NewBigIntWithDecimal; pres_auto. Qed.
+Hint Resolve LegacyNewDecFromBigInt_pres NewBigDecWithPrec_pres QuoRoundUpP_pres QuoInt64_pres Quo_pres : pres.
+Lemma BigDecFromDecMut_pres : forall d, Wn d -> pres n S (BigDecFromDecMut d) Wn.
+Proof. intros; unfold BigDecFromDecMut; auto with pres. Qed.
+Hint Resolve BigDecFromDecMut_pres : pres.
+Lemma DivIntByU64ToBigDec_pres : forall i u r, pres n S (DivIntByU64ToBigDec i u r) Wn.
+Proof. intros; unfold DivIntByU64ToBigDec, QuoRoundUp; pres_auto. Qed.
 End Frames.
